@@ -3,7 +3,7 @@
 set -e
 cd "$(dirname "$0")"
 export GOFLAGS=-mod=mod GOPROXY=off
-(cd lean && lake build)
+(cd lean && lake build && lake build $(grep -o "om_[a-z]*" lakefile.toml))
 mkdir -p harness/bin
 cp /repo/go/go.sum harness/go.sum
 for d in harness/cmd/*/; do
